@@ -268,3 +268,120 @@ Proof.
 Qed.
 
 End Rollback.
+
+(* ------------------------------------------------------------------ cleanup: kill_unreachable, drop_file *)
+Lemma cdata_only_idem l : cdata_only (cdata_only l) = cdata_only l.
+Proof.
+  unfold cdata_only. induction l as [|[c|d] r IH]; cbn [filter]; [reflexivity|exact IH|]. cbn [filter]. rewrite IH. reflexivity.
+Qed.
+Lemma kill_idem n : kill (kill n) = kill n.
+Proof. unfold kill. cbn. rewrite cdata_only_idem. reflexivity. Qed.
+
+Definition KillEff (base : N) (w w' : world) : Prop :=
+  w_next w' = w_next w /\ w_files w' = w_files w /\ w_models w' = w_models w /\
+  (forall i, i < base -> w_nodes w' i = w_nodes w i) /\
+  (forall i, w_nodes w' i = w_nodes w i \/ exists n, w_nodes w i = Some n /\ w_nodes w' i = Some (kill n)).
+
+Lemma fold_kill_cases keep ids : forall (g : id -> option node) j,
+  let g' := fold_left (fun g i => if existsb (N.eqb i) keep then g
+                                  else match g i with Some n => upd g i (kill n) | None => g end) ids g in
+  g' j = g j \/ exists n, g j = Some n /\ g' j = Some (kill n).
+Proof.
+  induction ids as [|i ids IH]; intros g j; cbn [fold_left]; [left; reflexivity|].
+  destruct (existsb (N.eqb i) keep); [apply IH|].
+  destruct (g i) as [n|] eqn:Ei; [|apply IH].
+  destruct (IH (upd g i (kill n)) j) as [H|(n' & H1 & H2)].
+  - destruct (N.eq_dec j i) as [->|Hne].
+    + right. exists n. split; [exact Ei|]. rewrite H. apply upd_eq.
+    + left. rewrite H. apply upd_neq. exact Hne.
+  - destruct (N.eq_dec j i) as [->|Hne].
+    + right. exists n. split; [exact Ei|]. rewrite upd_eq in H1. injection H1 as <-. rewrite H2, kill_idem. reflexivity.
+    + right. exists n'. rewrite upd_neq in H1 by exact Hne. auto.
+Qed.
+
+Lemma kill_unreachable_eff base keep w r w' : kill_unreachable base keep w = Val (r, w') -> r = OK tt /\ KillEff base w w'.
+Proof.
+  intros H. pose proof (above_kill_unreachable base base keep w r w' (N.le_refl _) H) as (_ & A2 & _).
+  unfold kill_unreachable in H. injection H as <- <-. split; [reflexivity|]. repeat split; auto.
+  intros i. cbn [w_nodes]. apply fold_kill_cases.
+Qed.
+
+Definition DropEff (f : N) (w w' : world) : Prop :=
+  w_next w' = w_next w /\ w_files w' = removelast (w_files w) /\ w_models w' = w_models w /\
+  forall i, w_nodes w' i = option_map (rename_file f (DEAD_FILE_BASE + w_next w)) (w_nodes w i).
+
+(* ------------------------------------------------------------------ the residue of a rejected load *)
+Definition Residue (m fid : N) (fl : file) (w w' : world) : Prop :=
+  exists w1 wM wR wK,
+    above (w_next w) w w1 /\
+    WorldEff fid (mkWorld (w_nodes w1) (w_next w1) (w_files w1 ++ [fl]) (w_models w1)) wM /\
+    RemEff fid wM wR /\ KillEff (w_next w) wR wK /\ DropEff fid wK w'.
+
+Section Reject.
+Variable T : tables.
+Variables LATEST defref : N.
+
+Theorem load_parsed_reject_residue m filename root st w w' :
+  load_parsed T LATEST defref m filename root st w = Val (ER InvalidFileMerge, w') ->
+  Residue m (N.of_nat (List.length (w_files w))) (mkFile m filename (Parser.p_version st) (Parser.p_standalone st)) w w'.
+Proof.
+  unfold load_parsed. intros H.
+  apply wbind_inv in H as [(w0 & w0' & H0 & H) | (e' & H0 & _)]; [|apply wget_inv in H0 as ([=] & _)].
+  apply wget_inv in H0 as (E0 & E0'). injection E0 as E0. subst w0 w0'.
+  apply wbind_inv in H as [(t & w1 & H1 & H) | (e' & H1 & _)]; [|exfalso; eapply (errs_install (fun _ => False)); eauto].
+  pose proof (above_install (w_next w) _ _ _ _ _ (N.le_refl _) H1) as A1.
+  apply wbind_inv in H as [(w1' & w1'' & H2 & H) | (e' & H2 & _)]; [|apply wget_inv in H2 as ([=] & _)].
+  apply wget_inv in H2 as (E2 & E2'). injection E2 as E2. subst w1' w1''.
+  apply wbind_inv in H as [(x0 & w2 & H3 & H) | (e' & H3 & _)]; [|apply get_model_inv in H3 as (? & _ & [=] & _)].
+  apply get_model_inv in H3 as (x0' & _ & _ & ->).
+  apply wbind_inv in H as [(ov & w3 & H4 & H) | (e' & H4 & _)]; [|apply wl_inv in H4 as (? & _ & [=] & _)].
+  apply wl_inv in H4 as (ov' & _ & _ & ->).
+  destruct ov.
+  { apply wbind_inv in H as [(u & w4 & H5 & H) | (e' & H5 & _)]; [|unfold kill_unreachable in H5; discriminate].
+    apply wfail_inv in H as ([=] & _). }
+  apply wbind_inv in H as [(u & w4 & H5 & H) | (e' & H5 & _)]; [|unfold wput in H5; discriminate].
+  unfold wput in H5. injection H5 as _ <-.
+  set (fid := N.of_nat (List.length (w_files w))) in *.
+  set (fl := mkFile m filename (Parser.p_version st) (Parser.p_standalone st)) in *.
+  set (w1' := mkWorld (w_nodes w1) (w_next w1) (w_files w1 ++ [fl]) (w_models w1)) in *.
+  apply wbind_inv in H as [(x & w5 & H6 & H) | (e' & H6 & _)]; [|apply get_model_inv in H6 as (? & _ & [=] & _)].
+  apply get_model_inv in H6 as (x' & _ & _ & ->).
+  apply wbind_inv in H as [(r & w6 & H7 & H) | (e' & H7 & _)]; [|apply wcatch_inv in H7 as (? & _ & [=])].
+  apply wcatch_inv in H7 as (r0 & H7 & [= ->]).
+  apply wbind_inv in H as [(x3 & w7 & H8 & H) | (e' & H8 & _)]; [|apply get_model_inv in H8 as (? & _ & [=] & _)].
+  apply get_model_inv in H8 as (x3' & _ & _ & ->).
+  apply wbind_inv in H as [(w8 & w8' & H9 & H) | (e' & H9 & _)]; [|apply wget_inv in H9 as ([=] & _)].
+  apply wget_inv in H9 as (_ & ->).
+  apply wbind_inv in H as [(keep & w9 & H10 & H) | (e' & H10 & _)]; [|eapply (errs_dfs_ids (fun _ => False)) in H10; destruct H10].
+  apply ro_dfs_ids in H10. subst w9.
+  apply wbind_inv in H as [(u2 & wK & H11 & H) | (e' & H11 & _)]; [|unfold kill_unreachable in H11; discriminate].
+  apply kill_unreachable_eff in H11 as (_ & HK).
+  destruct r0 as [u0|e0]; [apply wret_inv in H as ([=] & _)|].
+  apply wbind_inv in H as [(u1 & w11 & H12 & H13) | (e' & H12 & _)]; [|unfold drop_file in H12; discriminate].
+  apply wfail_inv in H13 as ([= <-] & ->).
+  (* the stage: only the merge branch can fail, and with the error of merge_file_data after the rollback attempt *)
+  assert (HS : exists wM, WorldEff fid w1' wM /\ RemEff fid wM w6).
+  { apply wbind_inv in H7 as [(ua & wa & Ha & Hb) | (e' & Ha & [= <-])].
+    - exfalso. apply wbind_inv in Hb as [(u3 & wb & Hb1 & Hb2) | (e' & Hb1 & [= <-])];
+        [|eapply (errs_fill_identifiables (fun _ => False)); eauto].
+      apply wbind_inv in Hb2 as [(u4 & wc & Hc1 & Hc2) | (e' & Hc1 & [= <-])];
+        [|eapply (errs_fill_references (fun _ => False)); eauto].
+      eapply (errs_modify_model (fun _ => False)); eauto.
+    - destruct (is_empty (m_files x)).
+      + exfalso. revert Ha. apply (errs_bind (fun _ => False)); [apply errs_modify_node|intros _].
+        apply errs_bind; [apply errs_modify_node|intros _]. apply errs_modify_model.
+      + apply wbind_inv in Ha as [(mr & wM & Hm1 & Hm2) | (e' & Hm1 & _)]; [|apply wcatch_inv in Hm1 as (? & _ & [=])].
+        apply wcatch_inv in Hm1 as (r1 & Hm1 & [= ->]).
+        destruct r1 as [ub|e1]; [apply wret_inv in Hm2 as ([=] & _)|].
+        exists wM. split; [eapply merge_file_data_effects; eauto|].
+        apply wbind_inv in Hm2 as [(x1 & wd & Hd1 & Hd2) | (e' & Hd1 & _)]; [|apply get_model_inv in Hd1 as (? & _ & [=] & _)].
+        apply get_model_inv in Hd1 as (x1' & _ & _ & ->).
+        apply wbind_inv in Hd2 as [(o & we & He1 & He2) | (e' & He1 & _)]; [|apply wtry_inv in He1 as (? & _ & [=])].
+        apply wfail_inv in He2 as (_ & ->).
+        eapply (effR_try (RemEff fid)); [apply rem_e_remove_from_file|exact He1]. }
+  destruct HS as (wM & HM & HR).
+  exists w1, wM, w6, wK. split; [exact A1|]. split; [exact HM|]. split; [exact HR|]. split; [exact HK|].
+  unfold drop_file in H12. injection H12 as _ <-. repeat split; reflexivity.
+Qed.
+
+End Reject.
